@@ -73,10 +73,15 @@ def gen_definition(rng, fam):
     def bad():
         return rng.choice([L.ctx("nope"), L.e("ctx().x.k.z"), L.e("1 + 'a'", "1 + 'a'"), L.e("nofunc(1)"),
                            L.e("list().first()", "[] | first | int"), L.e("1 / 0"), L.e("list(1)[5]", "[1][5].k"),
-                           L.e("dict(a=>1).b.c", "{'a': 1}.b.c"), L.e("int('x')", "'x' | int(base=99)")])
+                           L.e("dict(a=>1).b.c", "{'a': 1}.b.c"), L.e("int('x')", "'x' | int(base=99)"),
+                           # two failing expressions in one text: which one is reported must not depend on anything
+                           L.ctx("nope1") + " / " + L.ctx("nope2")])
 
     def maybe_bad(v):
         return bad() if rng.random() < fam["p_bad"] else v
+
+    if rng.random() < fam["p_bad"] * 1.5:
+        vars_.append({"bv": bad()})         # a workflow variable that fails to render
 
     def token(t):
         tok[0] += 1
@@ -194,7 +199,7 @@ def gen_definition(rng, fam):
                         pubs.append({"dv": {"k_%s_%d" % (t, len(nxt)): token(t)}})
                     elif var == "d":
                         # the variable that concurrency / delay / retry count expressions read, changed on the way
-                        pubs.append({var: rng.choice([2, 3, 0])})
+                        pubs.append({var: "2" if rng.random() < fam["p_bad"] * 2 else rng.choice([2, 3, 0])})
                     else:
                         pubs.append({var: maybe_bad(pub_value(t))})
                 if rng.random() < fam.get("p_pub_d", 0.0):
@@ -317,6 +322,8 @@ CTRL = ["pausing", "paused", "resuming", "running", "canceling", "canceled", "fa
 def run_history(sess, rng, fam, oracle, max_steps=None):
     """Adaptive random history over a Session (engine, and model when attached)."""
     steps = max_steps or rng.randint(*fam["steps"])
+    if rng.random() < fam.get("p_persist_first", 0.0):
+        sess.persist()          # persisted before anything else was asked of the fresh conductor
     sess.boot()
     idle_polls = 0
     tasks = list(sess.definition["tasks"].keys())
@@ -335,6 +342,8 @@ def run_history(sess, rng, fam, oracle, max_steps=None):
             choices.append(("query", fam["w_query"]))
         if st in COMPLETED and not (fam.get("rerun_only_when_idle") and sess.inflight):
             choices.append(("rerun", fam["w_rerun"]))
+        elif fam.get("w_rerun_any") and not sess.inflight:
+            choices.append(("rerun", fam["w_rerun_any"]))       # must be refused: the workflow is not completed
         total = sum(w for _, w in choices)
         x = rng.random() * total
         for name, w in choices:
